@@ -132,6 +132,13 @@ Definition required_methods : list string :=
 Definition exit_only_for_exit (t : list (string * string)) : bool :=
   forallb (fun kv => negb (String.eqb (snd kv) exit_handler) || String.eqb (fst kv) "exit") t.
 
+(* values json.dumps rejects (iterators, sets, dict views) may only be kept by the
+   configuration code, never by a request handler or its helpers *)
+Definition lazy_allowed (x : string * string) : bool :=
+  existsb (String.eqb (fst x))
+    ["_load_config_file_dirs"; "_load_config_file_preproc"; "_resolve_globs_in_paths"; "_add_source_dirs"]
+  || (String.eqb (fst x) "get_all_references" && String.eqb (snd x) "file_set = self.workspace.items()").
+
 Definition wf_proto (p : proto_desc) : bool :=
   match p_unknown p with [] => true | _ => false end
   && match p_notif p with NotifTryCatchAll => true | _ => false end
@@ -144,6 +151,7 @@ Definition wf_proto (p : proto_desc) : bool :=
   && running_ok (p_running p)
   && match lookup (p_table p) "exit" with Some h => String.eqb h exit_handler | None => false end
   && exit_only_for_exit (p_table p)
+  && forallb lazy_allowed (p_lazy p)
   && forallb (fun m => match lookup (p_table p) m with Some _ => true | None => false end) required_methods.
 
 (* ---- specification side *)
